@@ -521,6 +521,41 @@ class Body:
 # ---------------------------------------------------------------------------------------------
 # term utilities
 
+def norm(t):
+    """Structural form of a term that ignores *where* a call happened (block index) and
+    reference/dereference wrappers, so two evaluations of the same pure expression compare equal."""
+    if not isinstance(t, tuple) or not t:
+        return t
+    tag = t[0]
+    if tag in ("ref", "deref"):
+        return norm(t[1])
+    if tag == "call":
+        if t[1].endswith("ops::Deref>::deref") and len(t[2]) == 1:
+            return norm(t[2][0])
+        return ("call", t[1], tuple(norm(a) for a in t[2]))
+    if tag == "callind":
+        return ("callind", norm(t[1]), tuple(norm(a) for a in t[2]))
+    if tag == "agg":
+        return ("agg", t[1], t[2], t[3], tuple(norm(a) for a in t[4]))
+    if tag == "bin":
+        return ("bin", t[1], norm(t[2]), norm(t[3]))
+    if tag in ("un",):
+        return ("un", t[1], norm(t[2]))
+    if tag == "cast":
+        return ("cast", norm(t[1]), t[2])
+    if tag == "field":
+        return ("field", norm(t[1]), t[2], t[3])
+    if tag in ("downcast",):
+        return ("downcast", norm(t[1]), t[2])
+    if tag == "index":
+        return ("index", norm(t[1]), norm(t[2]))
+    if tag == "discr":
+        return ("discr", norm(t[1]))
+    if tag == "const":
+        return t[:3]
+    return t
+
+
 def strip_casts(t):
     while t and t[0] == "cast":
         t = t[1]
